@@ -10,7 +10,8 @@
    model therefore does not say: (a) class-selective catching of exception classes that do not cross unchanged (user-defined classes
    under the default configuration are replaced by a generic stand-in: C09's gating clause; for C01 that is known finding F46, found
    by the harness's second phase); (b) that a result/argument of any SHAPE is the same value or a reference to the same object
-   (C03/C04; run differentially here). *)
+   (C03/C04; run differentially here); (c) the machine's waits have no expiry: the real sync_request_timeout (30 s by default) turns a
+   callee that runs longer into a TimeoutError at the caller (timeouts are C15's). *)
 From V Require Import lib.Base model.CallTree proofs.CallTreeP proofs.CallTreeTie gen.Gen_calls.
 From Coq Require Import Relations.
 
